@@ -111,7 +111,7 @@ def finish(ctx: Ctx, level: str, explanation: str, assumptions: List[str], trust
                 break
         (listed if hit else unlisted).append((f, hit))
 
-    ev_dir = os.path.join(VERIF, "evidence")
+    ev_dir = os.environ.get("VERIF_EVIDENCE_DIR") or os.path.join(VERIF, "evidence")
     rp_dir = os.path.join(ev_dir, "replay")
     os.makedirs(rp_dir, exist_ok=True)
     # clear stale replay files of this property
